@@ -63,7 +63,7 @@ func init() {
 	run.Register(&run.Def{
 		ID:          "C15",
 		Level:       "model_checking",
-		Rule:        "explicit-state exploration of the merge state space over a vector menu of 8 segment shapes (two vector fields in one segment; a segment with only the second vector field; two single-vector docs; a doc with two vectors + a doc without + a doc whose vector equals one of another segment; two field instances in one doc; a segment without the vector field; documents without any vector; empty batch), inputs in memory or re-opened; transitions = Merge(ordered list of <=3 states, EVERY drop vector, incl. inputs whose vectors are all deleted and a field all of whose vectors are deleted); distinct depth-1 states (canonical key incl. the reference's vector table) are merged again at depth 2 (3 in thorough). Oracle in every state (vectors tag, stand-in engine): Count/Fields; exact searches for every grid query and k in {1,10} on the merged segment == reference over the survivors under the new numbering; num_vectors statistic == surviving vectors and no statistic / empty search for a field without surviving vectors; engine live-object count 0 after the merged segment is closed. Non-trivial = merge with >= 1 survivor.",
+		Rule:        "explicit-state exploration of the merge state space over a vector menu of 8 segment shapes (two vector fields in one segment; a segment with only the second vector field; two single-vector docs; a doc with two vectors + a doc without + a doc whose vector equals one of another segment; two field instances in one doc; a segment without the vector field; documents without any vector; empty batch), inputs in memory or re-opened; transitions = Merge(ordered list of <=3 states, EVERY drop vector, incl. inputs whose vectors are all deleted and a field all of whose vectors are deleted); distinct depth-1 states (canonical key incl. the reference's vector table) are merged again at depth 2 (3 in thorough). Oracle in every state (vectors tag, stand-in engine): Count/Fields; exact searches for every grid query and k in {1,10} on the merged segment == reference over the survivors under the new numbering; num_vectors statistic == surviving vectors and no statistic / empty search for a field without surviving vectors; engine live-object count 0 after the merged segment is closed. Plus a 'vecbig' family: merges whose surviving vector count is 999..1002 / 1501 - both sides of the exact/clustered class boundary at 1000 - reached through inputs and drops, in memory and re-opened, incl. second merges of a result sitting on the boundary (soundness oracle for >= 1000 vectors). Plus an 'alphabet' family reusing C14's BUILD alphabet as merge inputs: every batch of 1 and of 2 documents over the 9 vector cells (90 segments) merged alone under every non-empty drop vector and with every 1-document batch on either side. Non-trivial = merge with >= 1 survivor.",
 		Assumptions: []string{"the vector engine is the pure-Go stand-in (DESIGN 3.4)", "deletion bitmaps only contain existing document numbers"},
 		Bounds: map[string]string{
 			"quick":    "lists <=2 over 8 items + triples over 3 items, every drop vector, depth 2 with 2 items",
@@ -73,6 +73,7 @@ func init() {
 		Gen: func(tier string, emit func(interface{})) {
 			genMerges("vec", vecBounds(tier), func(c enum.MergeCase) { emit(c) })
 			genVecBigMerges(tier, func(c enum.MergeCase) { emit(c) })
+			genAlphabetMerges("vecA", 9, tier, func(c enum.MergeCase) { emit(c) })
 		},
 		Run: func(ci interface{}, a *run.Acc) {
 			runMerge("C15")(ci, a)
